@@ -11,12 +11,36 @@ Import ListNotations.
 Inductive eq_guard := GReturnValue | GConst.
 Inductive rform := RfValue | RfCValue | RfCRef | RfRef | RfCPtr | RfPtr | RfSh.
 Scheme Equality for rform.
+(* host entry points that make a Boxed_Value of a C++ object (boxed_value.hpp): chaiscript::const_var's overloads and chaiscript::var.
+   What the overload hands to Boxed_Value's constructor decides the const flag (Object_Data::get records the constness of the
+   type it is given: G_CastRules): the argument's type with const added, as it is, or with const removed. *)
+Inductive cmode := CmAddConst | CmKeep | CmStrip.
+Inductive earg :=
+  | EaValue      (* const T &                          : a copy in a fresh shared_ptr *)
+  | EaPtr        (* T *                                : the pointer *)
+  | EaShared     (* const std::shared_ptr<T> &         : the shared_ptr *)
+  | EaRefWrap    (* const std::reference_wrapper<T> &  : the reference *)
+  | EaForward.   (* T && (chaiscript::var)             : whatever it is given *)
+Scheme Equality for earg.
+Record entry := mkentry { en_name : string; en_arg : earg; en_cmode : cmode; en_copies : bool }.
+(* host entry points that register a Boxed_Value under a name (dispatchkit.hpp): does it insist on a const value *)
+Record regrule := mkreg { rg_name : string; rg_requires_const : bool }.
+(* functions registered under an assignment-like name (`=`, `+=`, ..., `++`, `--`) in bootstrap.hpp, by how they get at their left operand:
+   as a Boxed_Number (in place through Boxed_Value::get_ptr), through boxed_cast to a parameter form, or as the Boxed_Value itself, which
+   they rebind with Boxed_Value::assign when one of the listed conjunctions of tests holds (ptr_assign, unknown_assign) *)
+Inductive bvguard := BgUndef | BgNotConst | BgSameType.
+Inductive asgkind := AsNumber | AsForm (f : form) | AsBoxed (w : list (list bvguard)).
+
 Record crules := mkcrules {
   cr_eq_guards : list eq_guard;            (* Equation_AST_Node: tests on the left operand, before anything else *)
   cr_prefix_guard : bool;                  (* Prefix_AST_Node: ++/-- of an arithmetic const is refused *)
   cr_num_refuses_ret : bool;               (* Boxed_Number::oper (binary): no in-place pointer for a return value *)
   cr_ret : list (rform * bool * bool);     (* Handle_Return: return form -> (boxed as const, boxes a copy) *)
-  cr_wrappers : list (string * form * bool) }.
+  cr_wrappers : list (string * form * bool);
+  cr_entries : list entry;
+  cr_regs : list regrule;
+  cr_fnobj : string * earg;                (* the entry point Dispatch_Engine::add_function boxes a function object with *)
+  cr_assign : list (string * asgkind) }.
 
 (* ---- store ---- *)
 (* Boxed_Value::Data (shared by every Boxed_Value copied from one another) *)
@@ -61,7 +85,13 @@ Inductive mutk :=
   | MForm (f : form) (conv : bool)   (* a C++ function / stdlib member whose parameter has form f; conv: dispatch's arithmetic
                                         conversion applies when the direct unboxing fails (arithmetic type, full type differs) *)
   | MFormConv                    (* ... whose parameter is another arithmetic type: only ever reached through that conversion *)
-  | MMismatch.                   (* ... whose parameter is an unrelated type *)
+  | MMismatch                    (* ... whose parameter is an unrelated type *)
+  | MOperBoxed (op : string) (y : nat) (same : bool)
+                                 (* `op`(x, y) called as a function on a value that is neither arithmetic nor a class with its own operator
+                                    (a function object): only the registered functions taking the Boxed_Value itself can apply;
+                                    same: x and y have the same bare type *)
+  | MEqBoxed (op : string) (y : nat) (same : bool).
+                                 (* x op y on such a value: Equation node, then the same functions *)
 Inductive cmd :=
   | CAlias (k : alias) (r x : nat)
   | CClone (y x : nat)                          (* var y = x : a copy, unless x is a return value *)
@@ -88,6 +118,13 @@ Definition guard_hit (C : crules) (d : data) : bool :=
 (* Boxed_Value::get_ptr() is null *)
 Definition mut_ptr_null (R : rules) (d : data) : bool := r_null_when_const R && d_const d.
 
+(* functions that take the left operand as a Boxed_Value: is one of the conjunctions of tests satisfied (a Data record in the store is
+   never undefined) *)
+Definition bv_accepts (w : list (list bvguard)) (d : data) (same : bool) : bool :=
+  existsb (forallb (fun g => match g with BgUndef => false | BgNotConst => negb (d_const d) | BgSameType => same end)) w.
+Definition boxed_assign_accepts (C : crules) (op : string) (d : data) (same : bool) : bool :=
+  existsb (fun a => String.eqb (fst a) op && match snd a with AsBoxed w => bv_accepts w d same | _ => false end) (cr_assign C).
+
 Definition set_cell (s : store) (l : nat) (v : Z) : store := mkstore (set_nth (s_cells s) l v) (s_datas s) (s_env s).
 Definition bind (s : store) (x h : nat) : store := mkstore (s_cells s) (s_datas s) ((x, h) :: s_env s).
 Definition new_data (s : store) (d : data) : store * nat := (mkstore (s_cells s) (s_datas s ++ [d]) (s_env s), List.length (s_datas s)).
@@ -107,6 +144,13 @@ Definition ret_allowed (g : grant) (rf : rform) : bool :=
   | _, _ => false
   end.
 
+(* Boxed_Value::assign: the Data record h becomes a copy of y's *)
+Definition rebind_to (s : store) (h y : nat) : store * res :=
+  match data_of s y with
+  | Some (_, dy) => (mkstore (s_cells s) (set_nth (s_datas s) h (unret dy)) (s_env s), RRebound)
+  | None => (s, RStuck)
+  end.
+
 (* one attempt on the Data d (handle h) *)
 Definition attempt (C : crules) (R : rules) (s : store) (m : mutk) (h : nat) (d : data) (v : Z) : store * res :=
   let mutate := (set_cell s (d_loc d) v, RMutated) in
@@ -118,11 +162,7 @@ Definition attempt (C : crules) (R : rules) (s : store) (m : mutk) (h : nat) (d 
       if guard_hit C d then (s, RErr)
       else match form_grant R FRef d with GMut => mutate | _ => (s, RErr) end
   | MRebind y =>
-      if guard_hit C d then (s, RErr)
-      else match data_of s y with
-           | Some (_, dy) => (mkstore (s_cells s) (set_nth (s_datas s) h (unret dy)) (s_env s), RRebound)
-           | None => (s, RStuck)
-           end
+      if guard_hit C d then (s, RErr) else rebind_to s h y
   | MPreArith =>
       if cr_prefix_guard C && d_const d then (s, RErr)
       else if mut_ptr_null R d then (s, RErr) else mutate
@@ -137,6 +177,11 @@ Definition attempt (C : crules) (R : rules) (s : store) (m : mutk) (h : nat) (d 
       end
   | MFormConv => if d_arith d then (s, RTemp) else (s, RErr)
   | MMismatch => (s, RErr)
+  | MOperBoxed op y same =>
+      if boxed_assign_accepts C op d same then rebind_to s h y else (s, RErr)
+  | MEqBoxed op y same =>
+      if guard_hit C d then (s, RErr)
+      else if boxed_assign_accepts C op d same then rebind_to s h y else (s, RErr)
   end.
 
 Definition exec_ret (C : crules) (R : rules) (s : store) (pf : form) (rf : rform) (t : nat) (d : data) : store * res :=
@@ -202,6 +247,7 @@ Definition exec (C : crules) (R : rules) (s : store) (c : cmd) : store * res :=
 (* an attempt that would change the object if it got through (a function taking const T& is not one) *)
 Definition is_attempt (m : mutk) : bool :=
   match m with MForm f _ => form_mutable f | MMismatch => false | _ => true end.
+(* (a call of an operator function that has no applicable overload is still an attempt: it has to end in an error) *)
 
 Record out := mkoutc { o_target : option nat; o_attempt : bool; o_result : res }.
 Fixpoint run (C : crules) (R : rules) (s : store) (p : list cmd) : store * list out :=
@@ -216,13 +262,56 @@ Fixpoint run (C : crules) (R : rules) (s : store) (p : list cmd) : store * list 
   end.
 
 (* ---- conditions on the regenerated guard table ---- *)
+Definition asg_ok (k : asgkind) : bool :=
+  match k with
+  | AsBoxed w => forallb (existsb (fun g => match g with BgUndef | BgNotConst => true | BgSameType => false end)) w
+  | _ => true
+  end.
 Definition crules_ok (C : crules) : bool :=
   existsb (fun g => match g with GConst => true | _ => false end) (cr_eq_guards C)
   (* reference / pointer return forms to const are boxed const and not copied; mutable ones may only come from mutable access *)
   && forallb (fun rf => match ret_info C rf with Some (c, cp) => c && negb cp | None => false end) [RfCRef; RfCPtr]
   && forallb (fun rf => match ret_info C rf with Some (_, cp) => cp | None => false end) [RfValue; RfCValue]
   (* stdlib wrappers that mutate their first parameter take it by a mutable form *)
-  && forallb (fun w => implb (snd w) (form_mutable (snd (fst w)))) (cr_wrappers C).
+  && forallb (fun w => implb (snd w) (form_mutable (snd (fst w)))) (cr_wrappers C)
+  (* functions that rebind the Boxed_Value they are given do so only when it is undefined or not const *)
+  && forallb (fun a => asg_ok (snd a)) (cr_assign C).
+
+(* ---- host entry points ---- *)
+Definition entry_const (e : entry) (tconst : bool) : bool :=
+  match en_cmode e with CmAddConst => true | CmKeep => tconst | CmStrip => false end.
+Definition entry_shared (a : earg) (sh : bool) : bool :=
+  match a with EaValue | EaShared => true | EaPtr | EaRefWrap => false | EaForward => sh end.
+Definition find_entry (C : crules) (name : string) (a : earg) : option entry :=
+  find (fun e => String.eqb (en_name e) name && earg_beq (en_arg e) a) (cr_entries C).
+Definition contains (sub s : string) : bool := match index 0 sub s with Some _ => true | None => false end.
+Definition entries_ok (C : crules) : bool :=
+  (* every entry point whose name starts with const_ adds const to the type it boxes *)
+  forallb (fun e => implb (prefix "const_"%string (en_name e)) (match en_cmode e with CmAddConst => true | _ => false end)) (cr_entries C)
+  (* no entry point removes const *)
+  && forallb (fun e => match en_cmode e with CmStrip => false | _ => true end) (cr_entries C)
+  (* every registration named ..._const.. insists on a const value *)
+  && forallb (fun r => implb (contains "_const"%string (rg_name r)) (rg_requires_const r)) (cr_regs C)
+  (* function objects are boxed through an entry point that adds const *)
+  && match find_entry C (fst (cr_fnobj C)) (snd (cr_fnobj C)) with
+     | Some e => match en_cmode e with CmAddConst => true | _ => false end
+     | None => false
+     end.
+
+(* the host shares the C++ object l (declared const iff tconst; held by a shared_ptr iff sh) under the name x through entry point e *)
+Definition share (s : store) (e : entry) (tconst sh arith : bool) (l x : nat) : store :=
+  let '(s0, l0) := if en_copies e then new_cell s (cell s l) else (s, l) in
+  let '(s1, h) := new_data s0 (mkdata l0 (entry_const e tconst) false arith (entry_shared (en_arg e) sh)) in
+  bind s1 x h.
+Definition reg_accepts (r : regrule) (d : data) : bool := negb (rg_requires_const r) || d_const d.
+
+(* can a function registered under an assignment-like name change, or rebind, what the Data record d denotes *)
+Definition asg_access (C : crules) (R : rules) (k : asgkind) (d : data) : bool :=
+  match k with
+  | AsNumber => negb (mut_ptr_null R d)
+  | AsForm f => match form_grant R f d with GMut => true | _ => false end
+  | AsBoxed w => bv_accepts w d true || bv_accepts w d false
+  end.
 
 (* every Data pointing at object l is const *)
 Definition protected (l : nat) (s : store) : Prop :=
